@@ -864,7 +864,12 @@ def fs_level_cases_c19(rng, quick):
                 s = "4l%d" % lvl
                 d = "d.%s.%s.~" % (s, fq(q)) if pub else "d.%s.~.%s" % (s, fq(q))
                 other = rng.choice([x for x in levels if x != lvl])
-                ops = [d, "g.%s" % s, "g.3", "g.5l%d" % other, "g.4l%d" % other, "g.%s" % s, "u", "g.%s" % s]
+                if pub:
+                    # the public query is per session: the root session and a session of another level store it too
+                    ops = [d, "g.%s" % s, "d.3.%s.~" % fq(q), "g.3", "d.5l%d.%s.~" % (other, fq(q)), "g.5l%d" % other,
+                           "g.4l%d" % other, "g.%s" % s, "u", "g.%s" % s]
+                else:
+                    ops = [d, "g.%s" % s, "g.3", "g.5l%d" % other, "g.4l%d" % other, "g.%s" % s, "u", "g.%s" % s]
                 cases.append(fs_line(masked, own, rng.choice(["US", "US", "-"]), cands, ops))
     # the level-10 sessions through the real code: {acc user=new scheme=anonymous login=true}, {login scheme=token}
     for q in (queries[:3] if quick else queries):
@@ -1571,14 +1576,14 @@ def run(ctx):
 
     purelib.run_pure(
         ctx, "c19", gen_cases, monitors, neighbours, nontrivial,
-        rule="parseSearchQuery on every string of length <=5 (quick) / <=7 (thorough) over {a,b,space,tab,comma,quote,colon,e-acute} with login rewriting, a sample of them without, and seeded random queries of 1..6 terms (vocabulary of plain/prefixed/upper-case/non-ASCII/invalid terms and random runes of all UTF-8 widths, 30% quoted, 10% broken quotes, 8% glued, doubled commas, unicode white space around); rewriteTag on the vocabulary and random words; normalizeTags (once and twice) on random lists with case/space/duplicate/length/non-letter/null-marker variations under maxTagCount in {1,2,3,5,16}; restrictedTagsEqual / filterRestrictedTags / stringSliceDelta / the fnd masked-namespace gate on random old/new lists against namespace sets {}, {email}, {email,tel}, {basic,x_1}, {a}, each call with its argument slices compared before/after (F, R: untouched; D: same elements); stateful scenarios TS on real 'me' and group topics above memverif with globals.immutableTagNS in {basic}, {email,tel}, {basic,email}, {tel}, {x_1,basic}, {} and maxTagCount in {16,4,6,3}: 400 hand-shaped scenarios (one ordinary + one reserved tag in every relative order in the old and the new list; rejected attempt followed by a read, by an accepted update, by unload + reload; non-owner; store failure) and seeded random scenarios of 5..12 requests aimed at the holder's current tags (34% change ordinary tags only, 18% replace / 10% drop / 10% add a reserved tag, same set, null marker, duplicates, random; raw spellings with case and white space, shuffled / ascending / descending; 6% store failure; 15% non-owner), {get tags}, unload, server-side UpdateTags, {sub new set.tags}, {acc new tags} with an authenticator adding a reserved tag; after EVERY request the reply, the stored row and the loaded topic's tags of every holder are compared with the model and the laws are evaluated; SEARCH layer (handler c19f: validators email + tel and the basic authenticator configured with add_to_tags, country codes US / DE / none): rewriteTag (WR) on a vocabulary of plain / e-mail / national digit-only and dotted phone / +phone / login / reserved / junk terms x country x login rewriting plus random digit strings and words; parseSearchQuery (QR) on every ordered pair of one term of each of 10 kinds (plain, e-mail, digits-only phone, +phone, login, quoted, masked-own, masked-foreign, reserved, junk) joined by AND and by OR, and random 1..4-term queries; the vocabulary and a sample of the pairs again in two more driver processes where a rewriter is NOT configured to index (tel add_to_tags off; email and basic add_to_tags off: law rewritten-only-when-configured); whole searches (FS) on a real fnd topic above memverif whose FindUsers / FindTopics record their arguments: 60 sampled (quick) / all 180 hand-shaped scenarios (a masked own / foreign / quoted-foreign term next to a term of every kind, AND / OR / comma-space, first / second, as public or private query, ordinary or root session, topic tags empty then the user's) + the queries of the seeded demonstrations + seeded random scenarios of 2..5 query rounds ({set desc public|private|both}, {get sub} from the same / another / the root session, null marker, unload, topic tags assigned) against masked namespaces {org}, {org,dept}, {tel}, {email,tel}, {basic}, {} with 3..6 candidate accounts / topics (60% active, suspended, deleted) carrying the rewritten forms; after EVERY request the reply, the recorded store arguments, the topic's tags and the public / private queries it holds are compared with the model and the search laws are evaluated",
+        rule="parseSearchQuery on every string of length <=5 (quick) / <=7 (thorough) over {a,b,space,tab,comma,quote,colon,e-acute} with login rewriting, a sample of them without, and seeded random queries of 1..6 terms (vocabulary of plain/prefixed/upper-case/non-ASCII/invalid terms and random runes of all UTF-8 widths, 30% quoted, 10% broken quotes, 8% glued, doubled commas, unicode white space around); rewriteTag on the vocabulary and random words; normalizeTags (once and twice) on random lists with case/space/duplicate/length/non-letter/null-marker variations under maxTagCount in {1,2,3,5,16}; restrictedTagsEqual / filterRestrictedTags / stringSliceDelta / the fnd masked-namespace gate on random old/new lists against namespace sets {}, {email}, {email,tel}, {basic,x_1}, {a}, each call with its argument slices compared before/after (F, R: untouched; D: same elements); stateful scenarios TS on real 'me' and group topics above memverif with globals.immutableTagNS in {basic}, {email,tel}, {basic,email}, {tel}, {x_1,basic}, {} and maxTagCount in {16,4,6,3}: 400 hand-shaped scenarios (one ordinary + one reserved tag in every relative order in the old and the new list; rejected attempt followed by a read, by an accepted update, by unload + reload; non-owner; store failure) and seeded random scenarios of 5..12 requests aimed at the holder's current tags (34% change ordinary tags only, 18% replace / 10% drop / 10% add a reserved tag, same set, null marker, duplicates, random; raw spellings with case and white space, shuffled / ascending / descending; 6% store failure; 15% non-owner), {get tags}, unload, server-side UpdateTags, {sub new set.tags}, {acc new tags} with an authenticator adding a reserved tag; after EVERY request the reply, the stored row and the loaded topic's tags of every holder are compared with the model and the laws are evaluated; SEARCH layer (handler c19f: validators email + tel and the basic authenticator configured with add_to_tags, country codes US / DE / none): rewriteTag (WR) on a vocabulary of plain / e-mail / national digit-only and dotted phone / +phone / login / reserved / junk terms x country x login rewriting plus random digit strings and words; parseSearchQuery (QR) on every ordered pair of one term of each of 10 kinds (plain, e-mail, digits-only phone, +phone, login, quoted, masked-own, masked-foreign, reserved, junk) joined by AND and by OR, and random 1..4-term queries; the vocabulary and a sample of the pairs again in two more driver processes where a rewriter is NOT configured to index (tel add_to_tags off; email and basic add_to_tags off: law rewritten-only-when-configured); whole searches (FS) on a real fnd topic above memverif whose FindUsers / FindTopics record their arguments: 60 sampled (quick) / all 180 hand-shaped scenarios (a masked own / foreign / quoted-foreign term next to a term of every kind, AND / OR / comma-space, first / second, as public or private query, ordinary or root session, topic tags empty then the user's) + the queries of the seeded demonstrations + seeded random scenarios of 2..5 query rounds ({set desc public|private|both}, {get sub} from the same / another / the root session, null marker, unload, topic tags assigned) against masked namespaces {org}, {org,dept}, {tel}, {email,tel}, {basic}, {} with 3..6 candidate accounts / topics (60% active, suspended, deleted) carrying the rewritten forms; AUTH LEVELS: half of the random scenarios draw their sessions from ids 1..6 with sess.authLvl in {0 none, 10 anon, 20 auth, 30 root, junk -10 -1 1 5 15 19 21 25 29 31 40 100 1000} (fixed per session id, now and then re-assigned), a third of those as 'anon' scenarios in which the searching user is an account created by the real {acc user=new scheme=anonymous login=true} and every level-10 session gets its level from that reply / from a real {login scheme=token}; plus hand-shaped level scenarios: for each level (none, anon, auth, root, 4 (quick) / all 13 junk values) x public / private query, a query matching an active, a suspended and a soft-deleted account and an active, a suspended and a soft-deleted topic searched from a session of that level, from the root session, from a session of another level, from the same session after its level changed, and after unload; after EVERY request the reply, the recorded store arguments, the topic's tags and the public / private queries it holds are compared with the model and the search laws are evaluated",
         trusted=["harness/overlay/server/zz_verif_c19_test.go (calls parseSearchQuery, rewriteTag, normalizeTags, filterRestrictedTags, restrictedTagsEqual, stringSliceDelta of package main; installs one fake validator and one fake authenticator so that rewriting is deterministic; request G restates the two-line gate expression of topic.go:2434-2442)",
                  "harness/runner/r_c19.ml: UTF-8 <-> rune list conversion (Go range-loop decoding), unicode tables of the Go toolchain instantiate the Section variables lower/is_letter/is_digit/is_number; their hypotheses are checked on all 0x110000 code points by the driver request UH on every run",
                  "harness/overlay/server/zz_verif_c19x_test.go (scenario driver: real hub / topics / sessions / store mappers above memverif; sessions are attached on demand before a {set}/{get}; unload = {leave} of every session + the hub.unreg message of the idle timer; server-side tag change = store.Users.UpdateTags while the topic is not loaded; fake authenticator 'verifx' whose AddRecord appends the scenario's tags to rec.Tags as auth/basic does; the token authenticator is initialised with a fixed key; one failing adapter call injected through memverif.SetFault)",
                  "harness/overlay/server/db/memverif (store contract modelled from db/mysql/adapter.go: UserUpdate/TopicUpdate replace the row's tags and refuse duplicates, UserUpdateTags returns the tags ordered)",
                  "tools/props/c19.py: python restatement of QuerySpec.denote / well_formed and of the tag laws, evaluated on the implementation's answers",
                  "byte order of valid UTF-8 strings equals code point order (checked by UH); input strings are valid UTF-8",
-                 "harness/overlay/server/zz_verif_c19fnd_test.go (search driver: globals.validators = {email, tel: add_to_tags}, auth/basic initialised with add_to_tags, globals.maskedTagNS per scenario, sess.countryCode assigned directly; request O asks each validator's PreCheck and each authenticator's AsTag DIRECTLY - these answers instantiate the model's Section variables vals / auths in the runner (file VERIF_C19ORACLE) and the monitor's reference, so the libraries behind them (net/mail, nyaruka/phonenumbers, the login regexp) are oracles, not modelled; request t assigns Topic.tags of the loaded fnd topic from the user's row, which no client request does at HEAD (initTopicFnd leaves it empty) - it exercises the gate with own tags present; root session = a session of the same user with authLvl root)",
+                 "harness/overlay/server/zz_verif_c19fnd_test.go (search driver: globals.validators = {email, tel: add_to_tags}, auth/basic initialised with add_to_tags, globals.maskedTagNS per scenario, sess.countryCode assigned directly; request O asks each validator's PreCheck and each authenticator's AsTag DIRECTLY - these answers instantiate the model's Section variables vals / auths in the runner (file VERIF_C19ORACLE) and the monitor's reference, so the libraries behind them (net/mail, nyaruka/phonenumbers, the login regexp) are oracles, not modelled; request t assigns Topic.tags of the loaded fnd topic from the user's row, which no client request does at HEAD (initTopicFnd leaves it empty) - it exercises the gate with own tags present; a session of level L = a session object of the searching user with sess.authLvl := L assigned directly (root, none and the junk values have no login path in the drivers' configuration: LevelNone is what the proxied session of a cluster master carries), except the level-10 sessions of the 'anon' scenarios, whose level is assigned by the real replyCreateUser / onLogin / token login code with the anonymous and token authenticators initialised)",
                  "harness/overlay/server/db/memverif FindUsers / FindTopics (store contract modelled from db/mysql/adapter.go 2352-2533: a row matches when it has one of the tags and one of every non-empty required group; activeOnly keeps state = OK; the caller is skipped among users) and zz_find_c19.go (argument log); the SQL of the real adapters is not executed",
                  "candidate rows are at most 8 (below the adapter's result limit); result ORDER is not compared (sets of ids)",
                  "no plugin is configured (pluginFind returns the query unchanged); fnd.public / private are strings"],
